@@ -1270,6 +1270,47 @@ def bd1(ctx, R):
                         aware = True
                 if isinstance(x, ast.Attribute) and x.attr == "final_chunk_lengths_override":
                     aware = True
+    # the array a windowed lazy read is collected in has room for the window, not for the channel: on every path its size depends on the offset
+    try:
+        rcd = prog.func("tdms.TdmsChannel._read_channel_data")
+    except AnchorMissing:
+        rcd = None
+    if rcd is not None and "offset" in rcd.params:
+        from .sem import leaves as _lv, mentions as _mentions
+        sy_r = Sym(prog, rcd, rcd.cls, inline=False)
+        OFFP = ("param", "offset")
+        for c_ in walk_body(rcd.node):
+            if isinstance(c_, ast.Call) and (call_name(c_) or "").split(".")[-1] in ("get_data_receiver",) and len(c_.args) >= 2:
+                env_r, _g = sy_r.env_at(c_)
+                size_v = sy_r.expr(c_.args[1], env_r)
+                lvs = [lf for _cs, lf in _lv(size_v, ())]
+                # max(0, X) / min(L, X): look inside
+                def offset_free(t):
+                    if isinstance(t, tuple) and t and t[0] == "call" and t[1] in ("max", "min") and len(t) > 2:
+                        inner = [a_ for a_ in t[2] if not (a_[0] == "const")]
+                        return all(offset_free(a_) for lf2 in inner for _c2, a_ in _lv(lf2, ())) if inner else True
+                    return not _mentions(t, OFFP)
+                has_dep = any(_mentions(lf, OFFP) for lf in lvs)
+                free = []
+                def walk_free(t):
+                    if isinstance(t, tuple) and t and t[0] == "call" and t[1] in ("max", "min") and len(t) > 2:
+                        for a_ in t[2]:
+                            if a_[0] != "const":
+                                for _c2, lf2 in _lv(a_, ()):
+                                    walk_free(lf2)
+                    elif isinstance(t, tuple) and t and t[0] == "phi":
+                        for _c2, lf2 in _lv(t, ()):
+                            walk_free(lf2)
+                    elif not _mentions(t, OFFP) and not (isinstance(t, tuple) and t and t[0] == "param"):
+                        free.append(t)
+                for lf in lvs:
+                    walk_free(lf)
+                key_r = "tdms.TdmsChannel._read_channel_data::room for the window"
+                if has_dep and free:
+                    R.violation(key_r, rcd.where(c_), "on some path the array the window is collected in is sized `%s`, which does not depend on the offset (other paths do): "
+                                "read_data(offset) then returns full[offset:] followed by `offset` values that were never read" % show(free[0])[:80])
+                elif has_dep:
+                    R.ok(key_r, rcd.where(c_), "the size of the receiving array depends on the offset on every path")
     # a final-chunk size derived from a total modulo the chunk size, with 0 read as "a full chunk", cannot tell a complete final chunk from
     # an EMPTY one: a channel may have no values at all in a truncated final chunk (final_chunk_lengths_override.get(path, 0) == 0)
     ambiguous = None
